@@ -655,173 +655,176 @@ def run(rep: Report, tier: str):
             continue
         for b in bodies:
             cases.append((hp, lb, a, k, m, ("PROTO",) if "binput" in b or "put" in b else ("PROTO", "FRAME"), 2 if "put" in b else 4, 3, 1, b))
-    skipped_abstract = set()
-    ci = 0
-    while ci < len(cases):
-        helper, label0, args, kw, mode, header, body_proto, memo_mag, const_proto, body = cases[ci]
-        ci += 1
-        label = f"{label0},header={'+'.join(header) or 'none'}" + (f",base-protocol={body_proto}" if body_proto != 4 else "") + (f",memo-size~{memo_mag}" if memo_mag != 3 else "") + (f",constant-opcode-protocol={const_proto}" if const_proto != 1 else "") + (f",base={body}" if body else "")
-        MemoLen.magnitude = memo_mag
-        Tok.const_proto_assumed = const_proto
-        Tok.const_proto_read = False
-        args = [len(header) + 1 if a == "before-stop" else a for a in args] if helper == "insert_magic_int" else args
-        f = repo.find_method(h.pk, helper) or (repo.find_method(h.pk, dotted(h.pk.attrs[helper])) if helper in h.pk.attrs else None)
-        if f is None:
-            raise AnalysisError(f"Pickled.{helper} not found")
-        q = f"{P}.{helper}"
-        where = f"{f.file}:{f.line}"
-        toks = base_tokens(header, body_proto, body)
-        try:
-            OBJ = run_tokens(list(toks), h.by_name)["stack"] if body else ["obj"]
-        except VMError as e:
-            raise AnalysisError(f"concrete base {body} does not run on the template VM: {e}")
-        me = h.new_self(toks)
-        try:
-            ret = h.call_method(me, helper, list(args), dict(kw))
-        except PyRaise as pe:
-            rep.ok("C08.once", q, f"[{label}] refused at build time with {pe.name}", where, nontrivial=False)
-            continue
-        except Unsupported as e:
-            if body is None and "abstract opcode BODY" in str(e):
-                # the helper inspects the base's own opcodes one by one: undecidable over the abstract BODY, decided over
-                # the concrete bases below
-                skipped_abstract.add((helper, label0))
-                rep.info(f"{q} [{label}]: inspects individual opcodes of the base ({e}); decided over the concrete bases instead")
+    # the template rules (an abstract opcode list run on a template VM): a helper written in a way that engine does not model
+    # leaves them undecided - the injection worlds below then decide on real pickles
+    with rep.part("template rules"):
+        skipped_abstract = set()
+        ci = 0
+        while ci < len(cases):
+            helper, label0, args, kw, mode, header, body_proto, memo_mag, const_proto, body = cases[ci]
+            ci += 1
+            label = f"{label0},header={'+'.join(header) or 'none'}" + (f",base-protocol={body_proto}" if body_proto != 4 else "") + (f",memo-size~{memo_mag}" if memo_mag != 3 else "") + (f",constant-opcode-protocol={const_proto}" if const_proto != 1 else "") + (f",base={body}" if body else "")
+            MemoLen.magnitude = memo_mag
+            Tok.const_proto_assumed = const_proto
+            Tok.const_proto_read = False
+            args = [len(header) + 1 if a == "before-stop" else a for a in args] if helper == "insert_magic_int" else args
+            f = repo.find_method(h.pk, helper) or (repo.find_method(h.pk, dotted(h.pk.attrs[helper])) if helper in h.pk.attrs else None)
+            if f is None:
+                raise AnalysisError(f"Pickled.{helper} not found")
+            q = f"{P}.{helper}"
+            where = f"{f.file}:{f.line}"
+            toks = base_tokens(header, body_proto, body)
+            try:
+                OBJ = run_tokens(list(toks), h.by_name)["stack"] if body else ["obj"]
+            except VMError as e:
+                raise AnalysisError(f"concrete base {body} does not run on the template VM: {e}")
+            me = h.new_self(toks)
+            try:
+                ret = h.call_method(me, helper, list(args), dict(kw))
+            except PyRaise as pe:
+                rep.ok("C08.once", q, f"[{label}] refused at build time with {pe.name}", where, nontrivial=False)
                 continue
-            raise AnalysisError(f"{q} [{label}]: cannot interpret the helper over the abstract opcode list: {e}")
-        finally:
-            if Tok.const_proto_read and const_proto == 1:
-                cases.append((helper, label0, args, kw, mode, header, body_proto, memo_mag, 0, body))
-        n_eval += 1
-        seq = " ".join(repr(t) for t in toks)
-        # ---- stop-last
-        if toks[-1].op != "STOP" or sum(1 for t in toks if t.op == "STOP") != 1:
-            rep.bad("C08.stop-last", q, f"stop-not-last:{label0.split(',')[0]}", f"[{label}] the rewritten pickle is `{seq}`: it does not end with its single STOP", f.file, f.line)
-            continue
-        rep.ok("C08.stop-last", q, f"[{label}] ends with its single STOP", where)
-        hand_picked = [t for t in toks if (t.op == "CONST" and t.cls not in ("ConstantOpcode",) and t.cls in bad_encoders) or (t.op in CONST_OPNAMES and t.cls in bad_encoders)]
-        if hand_picked:
-            rep.bad("C08.once", q, f"argument-encoder:{hand_picked[0].cls}", f"[{label}] the argument {hand_picked[0].arg!r} is encoded with the hand-picked opcode class {hand_picked[0].cls}, whose encoder is known not to round-trip (C15): the injected call receives a different argument", f.file, f.line)
-            continue
-        # ---- run on the template VM
-        try:
-            res = run_tokens(toks, h.by_name)
-        except Unsupported as e:
-            raise AnalysisError(f"{q} [{label}]: {e}")
-        except VMError as e:
-            kind = "C08.memo-read" if "GET" in str(e) else "C08.balanced"
-            rep.bad(kind, q, f"vm-error:{helper}:{label0}", f"[{label}] the rewritten pickle `{seq[:400]}` fails on the pickle VM: {e}", f.file, f.line)
-            continue
-        rep.ok("C08.memo-read", q, f"[{label}] every GET reads a key the template wrote", where)
-        stack, reduces = res["stack"], res["reduces"]
-        # ---- balanced
-        if mode in ("keep",):
-            want = ["obj"]
-        elif mode == "replace":
-            want = None  # [result of the injected call]
-        elif mode == "append-keep-value":
-            want = None
-        elif mode == "magic":
-            want = ["obj"]
-        else:
-            want = None
-        if mode == "magic":
-            if stack == OBJ and not reduces:
-                rep.ok("C08.balanced", q, f"[{label}] INT/POP pair is net-zero: stack at STOP is [obj]", where)
+            except Unsupported as e:
+                if body is None and "abstract opcode BODY" in str(e):
+                    # the helper inspects the base's own opcodes one by one: undecidable over the abstract BODY, decided over
+                    # the concrete bases below
+                    skipped_abstract.add((helper, label0))
+                    rep.info(f"{q} [{label}]: inspects individual opcodes of the base ({e}); decided over the concrete bases instead")
+                    continue
+                raise AnalysisError(f"{q} [{label}]: cannot interpret the helper over the abstract opcode list: {e}")
+            finally:
+                if Tok.const_proto_read and const_proto == 1:
+                    cases.append((helper, label0, args, kw, mode, header, body_proto, memo_mag, 0, body))
+            n_eval += 1
+            seq = " ".join(repr(t) for t in toks)
+            # ---- stop-last
+            if toks[-1].op != "STOP" or sum(1 for t in toks if t.op == "STOP") != 1:
+                rep.bad("C08.stop-last", q, f"stop-not-last:{label0.split(',')[0]}", f"[{label}] the rewritten pickle is `{seq}`: it does not end with its single STOP", f.file, f.line)
+                continue
+            rep.ok("C08.stop-last", q, f"[{label}] ends with its single STOP", where)
+            hand_picked = [t for t in toks if (t.op == "CONST" and t.cls not in ("ConstantOpcode",) and t.cls in bad_encoders) or (t.op in CONST_OPNAMES and t.cls in bad_encoders)]
+            if hand_picked:
+                rep.bad("C08.once", q, f"argument-encoder:{hand_picked[0].cls}", f"[{label}] the argument {hand_picked[0].arg!r} is encoded with the hand-picked opcode class {hand_picked[0].cls}, whose encoder is known not to round-trip (C15): the injected call receives a different argument", f.file, f.line)
+                continue
+            # ---- run on the template VM
+            try:
+                res = run_tokens(toks, h.by_name)
+            except Unsupported as e:
+                raise AnalysisError(f"{q} [{label}]: {e}")
+            except VMError as e:
+                kind = "C08.memo-read" if "GET" in str(e) else "C08.balanced"
+                rep.bad(kind, q, f"vm-error:{helper}:{label0}", f"[{label}] the rewritten pickle `{seq[:400]}` fails on the pickle VM: {e}", f.file, f.line)
+                continue
+            rep.ok("C08.memo-read", q, f"[{label}] every GET reads a key the template wrote", where)
+            stack, reduces = res["stack"], res["reduces"]
+            # ---- balanced
+            if mode in ("keep",):
+                want = ["obj"]
+            elif mode == "replace":
+                want = None  # [result of the injected call]
+            elif mode == "append-keep-value":
+                want = None
+            elif mode == "magic":
+                want = ["obj"]
             else:
-                rep.bad("C08.balanced", q, f"unbalanced:{label0}", f"[{label}] stack at STOP is {stack!r} (expected [obj]); sequence `{seq}`", f.file, f.line)
-            continue
-        if mode == "keep":
-            if stack != OBJ:
-                rep.bad("C08.balanced", q, f"unbalanced:{label0}", f"[{label}] stack at STOP is {stack!r}, expected exactly {OBJ!r} (the original object): the VM returns / leaves something other than the original object; sequence `{seq[:400]}`", f.file, f.line)
-            else:
-                rep.ok("C08.balanced", q, f"[{label}] stack at STOP is [obj]", where)
-        elif mode in ("replace", "function"):
-            if len(stack) == 1 and isinstance(stack[0], tuple) and stack[0][0] == "result" and stack[0][1] == len(reduces) - 1:
-                rep.ok("C08.balanced", q, f"[{label}] stack at STOP is [result of the injected call]", where)
-            else:
-                rep.bad("C08.balanced", q, f"unbalanced:{label0}", f"[{label}] stack at STOP is {stack!r}, expected exactly [result of the injected call]; sequence `{seq}`", f.file, f.line)
-        elif mode == "append-keep-value":
-            if len(stack) == 1:
-                rep.ok("C08.balanced", q, f"[{label}] one value at STOP", where)
-            else:
-                rep.bad("C08.balanced", q, f"unbalanced:{label0}", f"[{label}] stack at STOP is {stack!r}: the appended call's value is kept on top of the original object, which stays below it - the VM stack is not empty after STOP pops the result (property: 'leaves the VM stack empty at STOP')", f.file, f.line)
-        # ---- once
-        if mode == "function":
-            fn_calls = [(fn, a) for fn, a in reduces if isinstance(fn, tuple) and fn[0] == "result"]
-            ok = len(fn_calls) == 1
-            if ok:
-                fn, a = fn_calls[0]
-                src_call = reduces[fn[1]]
-                got_args = list(a[1:])
-                want_args = list(OBJ) + [("const", x) for x in (kw.get("constant_args") or [])]
-                ok = src_call[0][:3] == ("global", "builtins", "eval") and _value_of(src_call[1]) == ("injected_fn",) and got_args == want_args
-            defs = [r for r in reduces if isinstance(r[0], tuple) and r[0][:3] == ("global", "builtins", "exec")]
-            if ok and len(defs) == 1:
-                rep.ok("C08.once", q, f"[{label}] one exec of the definition, one call fn(obj{', *constant_args' if kw.get('constant_args') else ''})", where)
-            else:
-                rep.bad("C08.once", q, f"call-count:{label0}", f"[{label}] REDUCEs performed: {reduces!r}; expected one exec of the definition and exactly one application of the function to (obj, *constant_args)", f.file, f.line)
-            continue
-        mod, attr = kw.get("module", "builtins"), kw.get("attr", "exec" if helper == "insert_python_exec" else "eval")
-        mine = [(fn, a) for fn, a in reduces if isinstance(fn, tuple) and fn[:3] == ("global", mod, attr)]
-        if len(mine) == 1 and len(reduces) == 1 and _strict_eq(list(_value_of(mine[0][1])), list(args)):
-            rep.ok("C08.once", q, f"[{label}] exactly one REDUCE of {mod}.{attr} with the given arguments", where)
-        else:
-            rep.bad("C08.once", q, f"call-count:{label0}", f"[{label}] REDUCEs performed: {repr([(fn, _value_of(a)) for fn, a in reduces])[:300]}...; expected exactly one call of {mod}.{attr}{repr(tuple(args))[:200]}", f.file, f.line)
-    rep.extra["template_cases_evaluated"] = n_eval
-    # ---- helpers refuse a list that does not end in STOP
-    for helper in ("insert_python", "append_python", "insert_function_call_on_unpickled_object"):
-        toks = [Tok("PROTO", 4, "Proto"), Tok("BODY", proto=4)]
-        me = h.new_self(toks)
-        f = repo.find_method(h.pk, helper)
-        try:
-            h.call_method(me, helper, ["CODE"] if helper != "insert_function_call_on_unpickled_object" else ["def injected_fn(obj): return obj"], {})
-            rep.bad("C08.stop-last", f"{P}.{helper}", "no-stop-precondition", f"{helper} accepts an opcode list that does not end in STOP and inserts before the last opcode anyway", f.file, f.line)
-        except PyRaise as pe:
-            if pe.name == "ValueError":
-                rep.ok("C08.stop-last", f"{P}.{helper}", "refuses (ValueError) a pickle not ending in STOP", f"{f.file}:{f.line}")
-            else:
-                rep.bad("C08.stop-last", f"{P}.{helper}", f"no-stop-precondition:{pe.name}", f"{helper} on a pickle without STOP fails with {pe.name} rather than the documented ValueError", f.file, f.line)
-        except Unsupported as e:
-            raise AnalysisError(f"{helper}: {e}")
-    # ---- prefix position for different headers
-    ip = repo.find_method(h.pk, "insert_python")
-    for hdr in ([], ["PROTO"], ["PROTO", "FRAME"], ["FRAME"]):
-        toks = [Tok(x, 1, x.title()) for x in hdr] + [Tok("BODY", proto=4), Tok("STOP", None, "Stop")]
-        me = h.new_self(toks)
-        try:
-            h.call_method(me, "insert_python", ["CODE"], dict(run_first=True, use_output_as_unpickle_result=False))
-        except (PyRaise, Unsupported) as e:
-            raise AnalysisError(f"insert_python with header {hdr}: {e}")
-        ops_ = [t.op for t in toks]
-        first_inj = ops_.index("GLOBAL")
-        blk = ["CONST" if (o == "CONST" or o in CONST_OPNAMES) else o for o in ops_[first_inj:first_inj + 5]]
-        # the header that is still there (a helper may remove FRAME opcodes, whose lengths it invalidates): only PROTO / FRAME
-        # tokens, in their original order, precede the injected block
-        kept = ops_[:first_inj]
-        it_ = iter(hdr)
-        header_ok = all(o in ("PROTO", "FRAME") for o in kept) and all(o in it_ for o in kept)
-        if header_ok and blk == ["GLOBAL", "MARK", "CONST", "TUPLE", "REDUCE"] and ops_[first_inj + 5] == "BODY":
-            rep.ok("C08.prefix", f"{P}.insert_python", f"header {hdr or '[]'}: injected block sits right after it, contiguous, before the body", f"{ip.file}:{ip.line}")
-        else:
-            rep.bad("C08.prefix", f"{P}.insert_python", f"prefix-position:{'+'.join(hdr) or 'none'}", f"with header {hdr} the rewritten list is `{' '.join(ops_)}`: the injected block is not contiguous right after the header", ip.file, ip.line)
-    # compile() inherits the __future__ flags of the module that calls it unless dont_inherit=True: a `from __future__ import
-    # annotations` in fickle.py would silently change how the injected function's source is compiled (string annotations)
-    fm = repo.module("fickling.fickle")
-    futures = sorted({a.name for st in fm.tree.body if isinstance(st, ast.ImportFrom) and st.module == "__future__" for a in st.names})
-    for g_ in repo.functions.values():
-        if g_.module is not fm:
-            continue
-        for n_ in body_walk(g_.node):
-            if isinstance(n_, ast.Call) and dotted(n_.func) == "compile":
-                di = next((k.value for k in n_.keywords if k.arg == "dont_inherit"), n_.args[4] if len(n_.args) > 4 else None)
-                isolated = isinstance(di, ast.Constant) and bool(di.value)
-                if futures and not isolated:
-                    rep.bad("C08.once", g_.qualname, "compile-inherits-future-flags:" + ",".join(futures), f"`{src(n_)[:70]}` compiles the injected source with the compiler flags of fickle.py itself (`from __future__ import {', '.join(futures)}`): the precompiled variant of the injected function no longer means what its source means (e.g. annotations stay strings), unlike the plain-source variant", g_.file, n_.lineno)
+                want = None
+            if mode == "magic":
+                if stack == OBJ and not reduces:
+                    rep.ok("C08.balanced", q, f"[{label}] INT/POP pair is net-zero: stack at STOP is [obj]", where)
                 else:
-                    rep.ok("C08.once", g_.qualname, "compile() of the injected source is not affected by __future__ flags of the calling module" + (" (dont_inherit=True)" if isolated else " (the module has none)"), f"{g_.file}:{n_.lineno}")
-    if n_eval < 20:
-        raise AnalysisError(f"only {n_eval} template cases could be evaluated")
+                    rep.bad("C08.balanced", q, f"unbalanced:{label0}", f"[{label}] stack at STOP is {stack!r} (expected [obj]); sequence `{seq}`", f.file, f.line)
+                continue
+            if mode == "keep":
+                if stack != OBJ:
+                    rep.bad("C08.balanced", q, f"unbalanced:{label0}", f"[{label}] stack at STOP is {stack!r}, expected exactly {OBJ!r} (the original object): the VM returns / leaves something other than the original object; sequence `{seq[:400]}`", f.file, f.line)
+                else:
+                    rep.ok("C08.balanced", q, f"[{label}] stack at STOP is [obj]", where)
+            elif mode in ("replace", "function"):
+                if len(stack) == 1 and isinstance(stack[0], tuple) and stack[0][0] == "result" and stack[0][1] == len(reduces) - 1:
+                    rep.ok("C08.balanced", q, f"[{label}] stack at STOP is [result of the injected call]", where)
+                else:
+                    rep.bad("C08.balanced", q, f"unbalanced:{label0}", f"[{label}] stack at STOP is {stack!r}, expected exactly [result of the injected call]; sequence `{seq}`", f.file, f.line)
+            elif mode == "append-keep-value":
+                if len(stack) == 1:
+                    rep.ok("C08.balanced", q, f"[{label}] one value at STOP", where)
+                else:
+                    rep.bad("C08.balanced", q, f"unbalanced:{label0}", f"[{label}] stack at STOP is {stack!r}: the appended call's value is kept on top of the original object, which stays below it - the VM stack is not empty after STOP pops the result (property: 'leaves the VM stack empty at STOP')", f.file, f.line)
+            # ---- once
+            if mode == "function":
+                fn_calls = [(fn, a) for fn, a in reduces if isinstance(fn, tuple) and fn[0] == "result"]
+                ok = len(fn_calls) == 1
+                if ok:
+                    fn, a = fn_calls[0]
+                    src_call = reduces[fn[1]]
+                    got_args = list(a[1:])
+                    want_args = list(OBJ) + [("const", x) for x in (kw.get("constant_args") or [])]
+                    ok = src_call[0][:3] == ("global", "builtins", "eval") and _value_of(src_call[1]) == ("injected_fn",) and got_args == want_args
+                defs = [r for r in reduces if isinstance(r[0], tuple) and r[0][:3] == ("global", "builtins", "exec")]
+                if ok and len(defs) == 1:
+                    rep.ok("C08.once", q, f"[{label}] one exec of the definition, one call fn(obj{', *constant_args' if kw.get('constant_args') else ''})", where)
+                else:
+                    rep.bad("C08.once", q, f"call-count:{label0}", f"[{label}] REDUCEs performed: {reduces!r}; expected one exec of the definition and exactly one application of the function to (obj, *constant_args)", f.file, f.line)
+                continue
+            mod, attr = kw.get("module", "builtins"), kw.get("attr", "exec" if helper == "insert_python_exec" else "eval")
+            mine = [(fn, a) for fn, a in reduces if isinstance(fn, tuple) and fn[:3] == ("global", mod, attr)]
+            if len(mine) == 1 and len(reduces) == 1 and _strict_eq(list(_value_of(mine[0][1])), list(args)):
+                rep.ok("C08.once", q, f"[{label}] exactly one REDUCE of {mod}.{attr} with the given arguments", where)
+            else:
+                rep.bad("C08.once", q, f"call-count:{label0}", f"[{label}] REDUCEs performed: {repr([(fn, _value_of(a)) for fn, a in reduces])[:300]}...; expected exactly one call of {mod}.{attr}{repr(tuple(args))[:200]}", f.file, f.line)
+        rep.extra["template_cases_evaluated"] = n_eval
+        # ---- helpers refuse a list that does not end in STOP
+        for helper in ("insert_python", "append_python", "insert_function_call_on_unpickled_object"):
+            toks = [Tok("PROTO", 4, "Proto"), Tok("BODY", proto=4)]
+            me = h.new_self(toks)
+            f = repo.find_method(h.pk, helper)
+            try:
+                h.call_method(me, helper, ["CODE"] if helper != "insert_function_call_on_unpickled_object" else ["def injected_fn(obj): return obj"], {})
+                rep.bad("C08.stop-last", f"{P}.{helper}", "no-stop-precondition", f"{helper} accepts an opcode list that does not end in STOP and inserts before the last opcode anyway", f.file, f.line)
+            except PyRaise as pe:
+                if pe.name == "ValueError":
+                    rep.ok("C08.stop-last", f"{P}.{helper}", "refuses (ValueError) a pickle not ending in STOP", f"{f.file}:{f.line}")
+                else:
+                    rep.bad("C08.stop-last", f"{P}.{helper}", f"no-stop-precondition:{pe.name}", f"{helper} on a pickle without STOP fails with {pe.name} rather than the documented ValueError", f.file, f.line)
+            except Unsupported as e:
+                raise AnalysisError(f"{helper}: {e}")
+        # ---- prefix position for different headers
+        ip = repo.find_method(h.pk, "insert_python")
+        for hdr in ([], ["PROTO"], ["PROTO", "FRAME"], ["FRAME"]):
+            toks = [Tok(x, 1, x.title()) for x in hdr] + [Tok("BODY", proto=4), Tok("STOP", None, "Stop")]
+            me = h.new_self(toks)
+            try:
+                h.call_method(me, "insert_python", ["CODE"], dict(run_first=True, use_output_as_unpickle_result=False))
+            except (PyRaise, Unsupported) as e:
+                raise AnalysisError(f"insert_python with header {hdr}: {e}")
+            ops_ = [t.op for t in toks]
+            first_inj = ops_.index("GLOBAL")
+            blk = ["CONST" if (o == "CONST" or o in CONST_OPNAMES) else o for o in ops_[first_inj:first_inj + 5]]
+            # the header that is still there (a helper may remove FRAME opcodes, whose lengths it invalidates): only PROTO / FRAME
+            # tokens, in their original order, precede the injected block
+            kept = ops_[:first_inj]
+            it_ = iter(hdr)
+            header_ok = all(o in ("PROTO", "FRAME") for o in kept) and all(o in it_ for o in kept)
+            if header_ok and blk == ["GLOBAL", "MARK", "CONST", "TUPLE", "REDUCE"] and ops_[first_inj + 5] == "BODY":
+                rep.ok("C08.prefix", f"{P}.insert_python", f"header {hdr or '[]'}: injected block sits right after it, contiguous, before the body", f"{ip.file}:{ip.line}")
+            else:
+                rep.bad("C08.prefix", f"{P}.insert_python", f"prefix-position:{'+'.join(hdr) or 'none'}", f"with header {hdr} the rewritten list is `{' '.join(ops_)}`: the injected block is not contiguous right after the header", ip.file, ip.line)
+        # compile() inherits the __future__ flags of the module that calls it unless dont_inherit=True: a `from __future__ import
+        # annotations` in fickle.py would silently change how the injected function's source is compiled (string annotations)
+        fm = repo.module("fickling.fickle")
+        futures = sorted({a.name for st in fm.tree.body if isinstance(st, ast.ImportFrom) and st.module == "__future__" for a in st.names})
+        for g_ in repo.functions.values():
+            if g_.module is not fm:
+                continue
+            for n_ in body_walk(g_.node):
+                if isinstance(n_, ast.Call) and dotted(n_.func) == "compile":
+                    di = next((k.value for k in n_.keywords if k.arg == "dont_inherit"), n_.args[4] if len(n_.args) > 4 else None)
+                    isolated = isinstance(di, ast.Constant) and bool(di.value)
+                    if futures and not isolated:
+                        rep.bad("C08.once", g_.qualname, "compile-inherits-future-flags:" + ",".join(futures), f"`{src(n_)[:70]}` compiles the injected source with the compiler flags of fickle.py itself (`from __future__ import {', '.join(futures)}`): the precompiled variant of the injected function no longer means what its source means (e.g. annotations stay strings), unlike the plain-source variant", g_.file, n_.lineno)
+                    else:
+                        rep.ok("C08.once", g_.qualname, "compile() of the injected source is not affected by __future__ flags of the calling module" + (" (dont_inherit=True)" if isolated else " (the module has none)"), f"{g_.file}:{n_.lineno}")
+        if n_eval < 20:
+            raise AnalysisError(f"only {n_eval} template cases could be evaluated")
 
     # value level, interpreted last: the helpers on real base pickles, the rewritten bytes read by CPython's own unpickler
     from ..injectworlds import explore as _inject_explore
